@@ -33,3 +33,10 @@ prop('C04', technique='contract-based deductive verification: loop invariants ov
      assumptions=['identifiers cannot contain "_" (grammar), so STATIC names _static_<routine>_<name> cannot collide'],
      not_covered=['record-typed parameters (frame slot vs. layout size)', 'generator side of argument passing is under C01/C03',
                   'array rank > 3 and record arity > 4 in get_type_size'])
+prop('C15', technique='contract-based deductive verification: loop refinement of the DATA tokeniser against a specification fold '
+                      '(string VCs, z3 seq), generator/cursor contracts over enumerated placements with symbolic item texts',
+     explanation='parse_data proved equal to the specification fold for every text (step + epilogue refinement under an inductive '
+                 'invariant); grouping of DATA by labels, RESTORE part index and the READ cursor proved against the placement spec',
+     assumptions=['DATA text is printable ASCII + TAB (one source line)',
+                  'pyparsing hands the text after DATA to DataStmt unchanged'],
+     not_covered=['numeric text conversion of READ (int()/float() vs QB numerals) is under C16', 'event sequences longer than 4'])
